@@ -751,6 +751,10 @@ fn fold_case((n, is_builder, ops): &(usize, bool, Vec<(usize, usize, usize)>)) -
 }
 
 fn main() {
+    kvh::on_thread(real_main);
+}
+
+fn real_main() {
     let args = kvh::parse_args("C11", "c11");
     let c11 = args.prop != "C15";
     ALL.with(|a| a.set(args.prop == "C01"));
